@@ -43,4 +43,21 @@ VARIANTS = [
     V("C11-n04-dispatch-order", "neutral",
       "        if self.extrapolation_version == ExtrapolationVersion.ROMBERG_DEFAULT:\n            return RombergDefaultCoefficients(a, b)\n\n        elif self.extrapolation_version == ExtrapolationVersion.ROMBERG_LINEAR:\n            return RombergLinearCoefficients(a, b)\n",
       "        if self.extrapolation_version == ExtrapolationVersion.ROMBERG_LINEAR:\n            return RombergLinearCoefficients(a, b)\n\n        elif self.extrapolation_version == ExtrapolationVersion.ROMBERG_DEFAULT:\n            return RombergDefaultCoefficients(a, b)\n"),
+    # generic state rules (sa/statecheck.py)
+    V("C11-b40-balanced-weights-memo-never-dropped", "break", None, None, "C11.S2", edits=[
+        {"file": "Extrapolation.py", "old": "        self.max_level = None\n\n        self.print_debug = print_debug\n",
+         "new": "        self.max_level = None\n        self.weights_memo = None\n\n        self.print_debug = print_debug\n"},
+        {"file": "Extrapolation.py", "old": "        # Initialize list of weight dictionaries\n        weight_dict_list = []\n",
+         "new": "        if self.weights_memo is not None:\n            return self.weights_memo\n        # Initialize list of weight dictionaries\n        weight_dict_list = []\n"},
+        {"file": "Extrapolation.py", "old": "        assert len(weights) == len(self.grid)\n\n        return weights\n",
+         "new": "        assert len(weights) == len(self.grid)\n        self.weights_memo = weights\n\n        return weights\n"}]),
+    V("C11-n40-balanced-weights-memo-dropped-by-set-grid", "neutral", None, None, edits=[
+        {"file": "Extrapolation.py", "old": "        self.max_level = None\n\n        self.print_debug = print_debug\n",
+         "new": "        self.max_level = None\n        self.weights_memo = None\n\n        self.print_debug = print_debug\n"},
+        {"file": "Extrapolation.py", "old": "        # Initialize list of weight dictionaries\n        weight_dict_list = []\n",
+         "new": "        if self.weights_memo is not None:\n            return self.weights_memo\n        # Initialize list of weight dictionaries\n        weight_dict_list = []\n"},
+        {"file": "Extrapolation.py", "old": "        assert len(weights) == len(self.grid)\n\n        return weights\n",
+         "new": "        assert len(weights) == len(self.grid)\n        self.weights_memo = weights\n\n        return weights\n"},
+        {"file": "Extrapolation.py", "old": "        self.grid = grid\n        self.grid_levels = grid_levels\n        self.max_level = max(grid_levels)\n",
+         "new": "        self.grid = grid\n        self.grid_levels = grid_levels\n        self.max_level = max(grid_levels)\n        self.weights_memo = None\n"}]),
 ]
